@@ -210,8 +210,8 @@ impl Property for C03 {
             }
         }
         if tier == Tier::Thorough {
-            let runs = std::env::var("XSGV_FUZZ_RUNS").ok().and_then(|s| s.parse().ok()).unwrap_or(15_000u64);
-            let seeds: Vec<Vec<u8>> = crate::runner::gen_tapes(self, seed ^ 0x7a9e, 200)
+            let runs = std::env::var("XSGV_FUZZ_RUNS").ok().and_then(|s| s.parse().ok()).unwrap_or(4_000u64);
+            let seeds: Vec<Vec<u8>> = crate::runner::gen_tapes(self, seed ^ 0x7a9e, 60)
                 .into_iter()
                 .map(|t| {
                     let n = t.a.len().min(1023);
@@ -221,7 +221,7 @@ impl Property for C03 {
                     v
                 })
                 .collect();
-            let c = crate::fuzzrun::Campaign { target: "fz_tape", runs_per_worker: runs, workers: 16, seed: seed ^ 0x03, max_len: 2048, seeds };
+            let c = crate::fuzzrun::Campaign { target: "fz_tape", runs_per_worker: runs, workers: 16, seed: seed ^ 0x03, max_len: 1024, seeds };
             crate::fuzzrun::campaign_for("C03", &c, st)?;
         }
         Ok(())
